@@ -132,13 +132,13 @@ def names_of(node, m):
     return out
 
 
-def h_order(vm, mir):
-    """Linter::run on two assignments placed on lines {1,2}^2"""
+def two_assignments(vm, mir, nst=2):
+    """Program of nst assignments placed on lines {1..nst}^nst (names / values symbolic)"""
     gen = Gen(vm, mir, list_max=1)
     gen.names = lambda g, path: name_char(vm, path)
-    lines = [1 + vm.fork(2, note='line-of-statement-0'), 1 + vm.fork(2, note='line-of-statement-1')]
-    gen.force['root.Program.code'] = 1; gen.force['root.Program.code[0]'] = 'NonEmpty'; gen.force['root.Program.code[0].NonEmpty.0'] = 2
-    for i in range(2):
+    lines = [1 + vm.fork(nst, note=f'line-of-statement-{i}') for i in range(nst)]
+    gen.force['root.Program.code'] = 1; gen.force['root.Program.code[0]'] = 'NonEmpty'; gen.force['root.Program.code[0].NonEmpty.0'] = nst
+    for i in range(nst):
         sp = f'root.Program.code[0].NonEmpty.0[{i}]'
         gen.force[sp] = 'Assignment'
         gen.force[sp + '.Assignment.0.Assignment.dest'] = 'Identifier'
@@ -149,20 +149,26 @@ def h_order(vm, mir):
         gen.force[sp + '.Assignment.0.Assignment.value.ExpressionList.0.ExpressionList.first'] = 'PrimaryExpression'
         gen.deep[sp + '.Assignment.0.Assignment.value.ExpressionList.0.ExpressionList.first'] = 1
     gen.min_choices['PrimaryExpression'] = lambda path: ['Literal', 'Identifier']
-    gen.min_choices['LiteralExpression'] = lambda path: ['Number', 'Null']
+    gen.min_choices['LiteralExpression'] = lambda path: (['Number', 'Null'] if nst == 2 else ['Null'])      # three statements: no number rendering (it only multiplies paths)
     gen.min_choices['Identifier'] = lambda path: ['VariableName']
     gen.min_choices['VariableName'] = lambda path: ['Simple']
     class L:      # per-statement line
         pass
     orig_gen = gen.gen
     def gen_with_line(ty, depth, path='root'):
-        for i in range(2):
+        for i in range(nst):
             if path.startswith(f'root.Program.code[0].NonEmpty.0[{i}]'): gen.line = lines[i]
         return orig_gen(ty, depth, path)
     gen.gen = gen_with_line
     gen.line = 1
     adt, node = gen.gen('Program', 3, 'root')
     C18.install_fmt_stub(vm)
+    return adt, node, lines
+
+
+def h_order(vm, mir, nst=2):
+    """Linter::run on nst assignments placed on lines {1,2}^nst"""
+    adt, node, lines = two_assignments(vm, mir, nst)
     vm.describe = lambda m: {'tree': node.describe(), 'lines': lines, 'names': names_of(node, m)}
     out = []
     def bad(role, detail):
@@ -204,6 +210,7 @@ def jobs(ctx, tier):
                 continue
             js.append(Job(f'rule/{ty}::{v}', h_rule, (mir, ty, v), witness=['rule-done'], str_mode='bounded', weight=4, fuel=6_000_000))
     js.append(Job('order/two-assignments', h_order, (mir,), witness=['order-done', 'tie'], str_mode='bounded', weight=10, fuel=6_000_000))
+    js.append(Job('order/three-assignments', h_order, (mir, 3), witness=['order-done'], str_mode='bounded', weight=30, fuel=12_000_000))
     return js
 
 
